@@ -23,7 +23,6 @@ static J gen_kdtree(Chooser &ch)
       else { x = static_cast<double>(ch.range(-2, 2)) * 1e5 + ch.real(-10, 10); y = static_cast<double>(ch.range(-2, 2)) * 1e5 + ch.real(-10, 10); }
       pts.push(jp(x, y));
     }
-  c["nodes"] = pts;
   J qs = J::arr();
   const int nq = static_cast<int>(ch.range(1, 12));
   for (int i = 0; i < nq; ++i)
@@ -32,6 +31,13 @@ static J gen_kdtree(Chooser &ch)
       else if (ch.chance(30)) { const J &p = pts[ch.index(pts.size())]; qs.push(jp(p[0].num(), p[1].num())); }
       else qs.push(jp(ch.real(-1.5e6, 1.5e6), ch.real(-1.5e6, 1.5e6)));
     }
+  // the unit of the coordinates: metres as generated, or scaled by a power of two (exact) down to the size of radians and below -
+  // nearest-node distances are then far below 1, where a distance and its square order differently against a coordinate difference
+  const double scale = mode == 0 ? ch.pick<double>({1.0, 1.0, 0.25, 1.0 / 64, 1.0 / 1024, 1024.0}) : ch.pick<double>({1.0, 1.0, std::ldexp(1.0, -20), std::ldexp(1.0, -26), std::ldexp(1.0, -14)});
+  for (auto &p : pts.a) { p[0] = J(p[0].num() * scale); p[1] = J(p[1].num() * scale); }
+  for (auto &p : qs.a) { p[0] = J(p[0].num() * scale); p[1] = J(p[1].num() * scale); }
+  c["scale"] = scale;
+  c["nodes"] = pts;
   c["queries"] = qs;
   return c;
 }
@@ -54,6 +60,7 @@ static Result check_kdtree(const J &c)
   }
   r.nontrivial = nodes.size() >= 3;
   r.classes.push_back(nodes.size() < 3 ? "n<3" : (nodes.size() < 30 ? "n<30" : "n>=30"));
+  if (c.has("scale") && c.at("scale").num() < 1) r.classes.push_back("coordinates scaled below 1 (radian-sized and smaller)");
   for (const auto &q : c.at("queries").a)
     {
       const Point<2> cp(q[0].num(), q[1].num(), WB::cartesian);
@@ -321,7 +328,34 @@ static J gen_bezier(Chooser &ch, bool spherical)
   J c = J::obj();
   c["spherical"] = spherical;
   auto pts = gen_polyline(ch, spherical, c);
-  // check the bend constraint on what was actually produced (latitude clamping can change it): recorded for the check
+  // 15%: an arc that is mirror-symmetric about the meridian (x = const) through its middle coordinate, with 3 or 5 coordinates,
+  // queried on that axis: by symmetry the closest point is exactly the middle coordinate, i.e. the joint of two curve segments
+  // (parameter 1 of one, 0 of the next) - the place where each segment's acceptance interval has to hand over to the other
+  if (ch.chance(15))
+    {
+      const WB::CoordinateSystem cs = spherical ? WB::spherical : WB::cartesian;
+      const double xc = spherical ? ch.real(-170, 170) * DEG : ch.real(-2e6, 2e6), yc = spherical ? ch.real(-50, 50) * DEG : ch.real(-2e6, 2e6);
+      const double u = spherical ? DEG : 1e5;
+      const double a1 = ch.real(1, 6) * u, b1 = ch.real(-2, 2) * u, a2 = a1 + ch.real(1, 6) * u, b2 = b1 + ch.real(-2, 2) * u;
+      const bool five = ch.flip();
+      pts.clear();
+      if (five) pts.emplace_back(xc - a2, yc + b2, cs);
+      pts.emplace_back(xc - a1, yc + b1, cs);
+      pts.emplace_back(xc, yc, cs);
+      pts.emplace_back(xc + a1, yc + b1, cs);
+      if (five) pts.emplace_back(xc + a2, yc + b2, cs);
+      J jp_ = J::arr();
+      for (auto &p : pts) jp_.push(jp(p[0], p[1]));
+      c["points"] = jp_;
+      J qs = J::arr();
+      const int nq = static_cast<int>(ch.range(2, 8));
+      for (int i = 0; i < nq; ++i) qs.push(jp(xc, yc + (ch.flip() ? 1 : -1) * ch.real(0.05, 2.5) * u));
+      // plus ordinary queries beside the arc
+      for (int i = 0; i < 3; ++i) qs.push(jp(xc + ch.real(-1, 1) * a1, yc + ch.real(-2, 2) * u));
+      c["queries"] = qs;
+      c["symmetric"] = true;
+      return c;
+    }
   J qs = J::arr();
   const int nq = static_cast<int>(ch.range(1, 10));
   for (int i = 0; i < nq; ++i)
@@ -373,6 +407,7 @@ static Result check_bezier(const J &c)
         return Result::fail("bezier-interpolation", "curve does not pass through coordinate " + std::to_string(i));
     }
   r.classes.push_back(std::string(spherical ? "spherical" : "cartesian") + " n=" + std::to_string(pts.size()));
+  if (c.has("symmetric")) r.classes.push_back("symmetric arc queried on its axis (foot at a joint)");
   // dense sampling of the whole curve
   const int S = 4000;
   std::vector<Point<2>> dense;
@@ -516,10 +551,10 @@ int main(int argc, char **argv)
 {
   return run_main("C19", argc, argv,
   {
-    {"kdtree", "random/lattice/clustered node sets (1..300) x queries; non-trivial: >=3 nodes; oracle: brute-force minimum distance (any minimiser)", 3000, gen_kdtree, check_kdtree},
+    {"kdtree", "random/lattice/clustered node sets (1..300), coordinates in metres or scaled by powers of two down to radian size and below, x queries; singular and plural search; non-trivial: >=3 nodes; oracle: brute-force minimum distance (any minimiser)", 3000, gen_kdtree, check_kdtree},
     {"polygon_lattice", "simple lattice polygons (star-shaped by construction or rejection-filtered general, 3..9 vertices, both orientations) x all lattice and half-lattice points of the enlarged box; exact integer oracle, boundary included; non-trivial: polygon is simple", 1500, gen_polygon, check_polygon},
     {"polygon_exhaustive", "complete enumeration of all simple k-gons on an n x n lattice x all lattice/half-lattice points (one case = one full enumeration)", 1, gen_polygon_exhaustive, check_polygon_exhaustive, 100, false},
-    {"bezier_cartesian", "polylines 2..7 points, bends <=60deg, queries within 300 km with interior foot; oracle: 4000-sample/segment dense sampling; non-trivial: interior foot", 600, [](Chooser &ch) { return gen_bezier(ch, false); }, check_bezier},
+    {"bezier_cartesian", "polylines 2..7 points, bends <=60deg, queries within 300 km with interior foot; 15% mirror-symmetric arcs of 3 or 5 coordinates queried on their axis (foot exactly at a joint of two segments); oracle: 4000-sample/segment dense sampling; non-trivial: interior foot", 600, [](Chooser &ch) { return gen_bezier(ch, false); }, check_bezier},
     {"bezier_spherical", "same in lon/lat radians with great-circle (haversine) metric", 600, [](Chooser &ch) { return gen_bezier(ch, true); }, check_bezier},
     {"sph_roundtrip", "r in [1,1e8], all lon/lat incl. poles and +-180", 20000, gen_roundtrip, check_roundtrip},
     {"great_circle", "pairs of points on a sphere, 45% forced >90deg apart; oracle atan2(|axb|,a.b)", 20000, gen_gc, check_gc},
